@@ -178,6 +178,10 @@ class GeometryFactory {
 public:
     GeometryFactory() : m_projection(), m_impl(m_projection.epsg()) {}
 
+    // C1: the settings given together with a projection object are dropped
+    template <typename... TArgs>
+    explicit GeometryFactory(TProjection&& projection, TArgs&&... args) : m_projection(std::move(projection)), m_impl(m_projection.epsg()) {}
+
     using linestring_type = typename TGeomImpl::linestring_type;
     using polygon_type = typename TGeomImpl::polygon_type;
     using multipolygon_type = typename TGeomImpl::multipolygon_type;
@@ -582,6 +586,8 @@ template class osmium::geom::GeometryFactory<osmium::geom::detail::WKBFactoryImp
 template class osmium::geom::GeometryFactory<osmium::geom::detail::WKTFactoryImpl, osmium::geom::IdentityProjection>;
 
 void c17_positive_use(const osmium::geom::detail::WKBFactoryImpl& wkb, const osmium::geom::detail::WKTFactoryImpl& wkt, const osmium::Location& l) {
+    osmium::geom::GeometryFactory<osmium::geom::detail::WKTFactoryImpl, osmium::geom::IdentityProjection> with_settings{osmium::geom::IdentityProjection{}, 3};
+    (void)with_settings;
     (void)wkb.make_point(osmium::geom::Coordinates{l});
     (void)wkt.make_point(osmium::geom::Coordinates{1.0, 2.0});
     (void)l.lon();
